@@ -5,7 +5,7 @@ from props import endpoint
 def check(pid, tier, replay):
     names = ["da", "db", "dc", "dd", "de", "la", "le"] if tier == "thorough" else ["a", "b", "c", "e", "la", "le"]
     gens = [("endpoint/SessGen", "endpoint/SessGen_%s.cfg" % n) for n in names] + endpoint.mix_gens(pid, tier)
-    endpoint.run(pid, tier, replay, ("C07_",), [("endpoint/SessionWin", "endpoint/SessionWin.cfg")], gens,
+    endpoint.run(pid, tier, replay, ("C07_",), [("endpoint/SessionWin", "endpoint/SessionWin.cfg"), ("ind/FlowInd", "apalache")], gens,
                  "after a fixed handshake every sequence up to the depth bound over {send 1 frame, send 3 frames, peer flow with window 0..3 / lagging / unset "
                  "next-incoming-id, incoming 1- and 2-frame transfers}, for id spaces starting at 0, 2^31 and just below 2^32, then a flow that reopens the window; the same against a listener-side session (accepted session and links); "
                  "distinct = distinct scripts" + endpoint.MIX_RULE)
